@@ -435,6 +435,11 @@ def POWER(
         raise xlerrors.NumExcelError(
             f'negative number {number} raised to fractional power {power}')
 
+    # Integers are raised exactly: stop before computing a number of millions
+    # of digits that no cell could hold anyway.
+    if number != 0 and power * math.log10(abs(float(number))) > 308.3:
+        raise xlerrors.NumExcelError('result is too large')
+
     try:
         result = np.power(number, power)
         float(result)
